@@ -896,7 +896,7 @@ func (g *c17Gen) realInvalid(r *rand.Rand) {
 func (g *c17Gen) random() {
 	n := 16
 	if envTier() == "thorough" {
-		n = 400
+		n = 800
 	}
 	for i := 0; i < n; i++ {
 		r := newRand(1710 + int64(i))
